@@ -11,7 +11,8 @@
    theory in this development; its geometric content is tiles_partition below), and the
    float routine toast_tile_area / libm-based _mid (validated numerically by the harness). *)
 From Coq Require Import List NArith Arith Bool.
-From Toasty Require Import Model.Quadtree Model.ToastTerm Proofs.ToastTermP.
+From Coq Require Import Reals.
+From Toasty Require Import Model.Quadtree Model.ToastTerm Proofs.ToastTermP Geom.Cone Geom.ToastReal.
 Import ListNotations.
 Local Open Scope N_scope.
 
@@ -114,6 +115,26 @@ Theorem hash_image : forall cs p, tile_hash (tile_at Base Mid cs p) = tile_at hb
 Proof. exact hash_tile_at. Qed.
 Print Assumptions hash_image.
 
+(* Documented layout at EVERY depth (lattice of depth m+1, c = 2^m): north pole at the centre,
+   south pole at the four corners, and the four equator points at the middles of the sides:
+   longitude 0 right, 90 top, 180 left, 270 bottom -- shifted by 180 for the planetary system
+   (b_eq cs q = Base ((q + 2) mod 4) there). *)
+Theorem layout :
+  forall cs m, let c := 2 ^ N.of_nat m in
+  vertex1 cs m c c = b_north Base cs /  vertex1 cs m 0 0 = b_south Base cs /\ vertex1 cs m (2 * c) 0 = b_south Base cs /  vertex1 cs m 0 (2 * c) = b_south Base cs /\ vertex1 cs m (2 * c) (2 * c) = b_south Base cs /  vertex1 cs m (2 * c) c = b_eq Base cs 0 /\ vertex1 cs m c 0 = b_eq Base cs 1 /  vertex1 cs m 0 c = b_eq Base cs 2 /\ vertex1 cs m c (2 * c) = b_eq Base cs 3.
+Proof. exact layout_all_depths. Qed.
+Print Assumptions layout.
+
+(* ... and the equator on the inscribed diamond: every lattice point on its four sides is built
+   from equator vertices only (so has latitude 0: equator_diamond_real below) *)
+Theorem equator_on_diamond :
+  forall cs m i j, let c := 2 ^ N.of_nat m in
+  i <= 2 * c -> j <= 2 * c ->
+  (i + j = c \/ i = j + c \/ j = i + c \/ i + j = 3 * c) ->
+  equatorial (vertex1 cs m i j) = true.
+Proof. exact diamond_is_equator. Qed.
+Print Assumptions equator_on_diamond.
+
 (* Documented layout (toast.py docstring), level 1; [Base k]: k = 4*kind + quarter turns,
    kind 0 equator, 1 north pole, 2 south pole.  Rows are j (top = 0), columns i. *)
 Example layout_astronomical_nonvacuous :
@@ -136,3 +157,116 @@ Example routes_agree_nonvacuous :
   existsb (tile_eqb (tile_at Base Mid Planet (mkPos 3 5 2))) (generate_tiles Base Mid 3 true Planet) = true /\
   c_ul (tile_at Base Mid Planet (mkPos 3 5 2)) = Mid (Mid (Base 6) (Base 3)) (Mid (Base 3) (Base 2)).
 Proof. vm_compute. repeat split. Qed.
+
+(* ====================================================================================
+   Real layer (Coq reals; standard-library real-number axioms appear in Print Assumptions).
+   Points are vectors of R^3; det a b p = (a x b) . p is the code's half-space test;
+   inT a b c p : p in the closed cone over the triangle; inTs: its interior;
+   the real tile of a position is the evaluation of the term tile (real_tile_is_eval),
+   with Mid evaluated as the normalised sum.  inU t p: p in one of the tile's two triangles;
+   intU: in the interior of one of them (the tile's interior less its open diagonal). *)
+
+Theorem real_tile_is_eval :
+  forall cs p, gmap pt vec eval (tile_at Base Mid cs p) = tile_at rbase rmid cs p.
+Proof. exact eval_tile_at. Qed.
+Print Assumptions real_tile_is_eval.
+
+(* one HTM step, for ANY positive multiples s0 s1 s2 of the edge midpoints *)
+Theorem tri_cover_step :
+  forall a b c s0 s1 s2, (0 < s0)%R -> (0 < s1)%R -> (0 < s2)%R -> forall p, inT a b c p ->
+  inT a (smid s2 a b) (smid s1 c a) p \/ inT b (smid s0 b c) (smid s2 a b) p \/
+  inT c (smid s1 c a) (smid s0 b c) p \/ inT (smid s0 b c) (smid s1 c a) (smid s2 a b) p.
+Proof. exact tri_cover. Qed.
+Print Assumptions tri_cover_step.
+
+Theorem tri_children_inside_step :
+  forall a b c s0 s1 s2, (0 < s0)%R -> (0 < s1)%R -> (0 < s2)%R -> (0 < det a b c)%R -> forall p,
+  (inT a (smid s2 a b) (smid s1 c a) p -> inT a b c p) /\ (inT b (smid s0 b c) (smid s2 a b) p -> inT a b c p) /\
+  (inT c (smid s1 c a) (smid s0 b c) p -> inT a b c p) /\
+  (inT (smid s0 b c) (smid s1 c a) (smid s2 a b) p -> inT a b c p).
+Proof. exact tri_children_inside. Qed.
+Print Assumptions tri_children_inside_step.
+
+Theorem tri_interiors_disjoint_step :
+  forall a b c s0 s1 s2, (0 < s0)%R -> (0 < s1)%R -> (0 < s2)%R -> (0 < det a b c)%R -> forall p,
+  let w0 := smid s0 b c in let w1 := smid s1 c a in let w2 := smid s2 a b in
+  ~ (inTs a w2 w1 p /\ inTs b w0 w2 p) /\ ~ (inTs a w2 w1 p /\ inTs c w1 w0 p) /\
+  ~ (inTs b w0 w2 p /\ inTs c w1 w0 p) /\
+  ~ (inTs a w2 w1 p /\ inTs w0 w1 w2 p) /\ ~ (inTs b w0 w2 p /\ inTs w0 w1 w2 p) /\
+  ~ (inTs c w1 w0 p /\ inTs w0 w1 w2 p).
+Proof. exact tri_interiors_disjoint. Qed.
+Print Assumptions tri_interiors_disjoint_step.
+
+Theorem orientation_preserved_step :
+  forall a b c s0 s1 s2, (0 < s0)%R -> (0 < s1)%R -> (0 < s2)%R -> (0 < det a b c)%R ->
+  let w0 := smid s0 b c in let w1 := smid s1 c a in let w2 := smid s2 a b in
+  (0 < det a w2 w1 /\ 0 < det b w0 w2 /\ 0 < det c w1 w0 /\ 0 < det w0 w1 w2)%R.
+Proof. exact orientation_preserved. Qed.
+Print Assumptions orientation_preserved_step.
+
+(* each tile is exactly tiled by its four children: they cover it, lie in it, and have
+   pairwise disjoint interiors (wfU: both triangles counter-clockwise; holds for every tile
+   of the pyramid, tiles_well_oriented) *)
+Theorem tile_children_cover_parent :
+  forall (t : gtile vec) p, wfU t -> inU t p ->
+  inU (child rmid t 0 0) p \/ inU (child rmid t 1 0) p \/ inU (child rmid t 0 1) p \/ inU (child rmid t 1 1) p.
+Proof. exact children_cover. Qed.
+Print Assumptions tile_children_cover_parent.
+
+Theorem tile_children_inside_parent :
+  forall (t : gtile vec) ix iy p, wfU t -> ix < 2 -> iy < 2 -> inU (child rmid t ix iy) p -> inU t p.
+Proof. exact child_inside. Qed.
+Print Assumptions tile_children_inside_parent.
+
+Theorem tile_children_interiors_disjoint :
+  forall (t : gtile vec) ix iy ix' iy' p, wfU t -> ix < 2 -> iy < 2 -> ix' < 2 -> iy' < 2 ->
+  (ix, iy) <> (ix', iy') -> intU (child rmid t ix iy) p -> intU (child rmid t ix' iy') p -> False.
+Proof. exact siblings_disjoint. Qed.
+Print Assumptions tile_children_interiors_disjoint.
+
+Theorem tiles_well_oriented :
+  forall cs m x y, x < 2 ^ N.of_nat (S m) -> y < 2 ^ N.of_nat (S m) -> wfU (tile_at1 rbase rmid cs m x y).
+Proof. exact wf_all. Qed.
+Print Assumptions tiles_well_oriented.
+
+(* the eight level-1 triangles (four tiles) cover R^3 ... *)
+Theorem level1_octants_cover :
+  forall cs (p : vec), exists x y, x < 2 /\ y < 2 /\ inU (tile_at1 rbase rmid cs 0 x y) p.
+Proof. exact level1_cover. Qed.
+Print Assumptions level1_octants_cover.
+
+(* tiles_partition, part 1: at every depth every direction lies in some tile *)
+Theorem tiles_partition_cover :
+  forall cs m (p : vec), exists x y,
+  x < 2 ^ N.of_nat (S m) /\ y < 2 ^ N.of_nat (S m) /\ inU (tile_at1 rbase rmid cs m x y) p.
+Proof. exact tiles_cover_all. Qed.
+Print Assumptions tiles_partition_cover.
+
+(* tiles_partition, part 2: at every depth distinct tiles have disjoint interiors *)
+Theorem tiles_partition_disjoint :
+  forall cs m x y x' y' p,
+  x < 2 ^ N.of_nat (S m) -> y < 2 ^ N.of_nat (S m) -> x' < 2 ^ N.of_nat (S m) -> y' < 2 ^ N.of_nat (S m) ->
+  intU (tile_at1 rbase rmid cs m x y) p -> intU (tile_at1 rbase rmid cs m x' y') p -> x = x' /\ y = y'.
+Proof. exact tiles_disjoint_all. Qed.
+Print Assumptions tiles_partition_disjoint.
+
+(* nesting: a tile lies in its parent, and every descendant in the tile *)
+Theorem nesting :
+  forall cs m x y p, x < 2 ^ N.of_nat (S (S m)) -> y < 2 ^ N.of_nat (S (S m)) ->
+  inU (tile_at1 rbase rmid cs (S m) x y) p -> inU (tile_at1 rbase rmid cs m (x / 2) (y / 2)) p.
+Proof. exact nesting_step. Qed.
+Print Assumptions nesting.
+
+Theorem nesting_descendants :
+  forall (t : gtile vec) p, wfU t -> forall k x y, inU (desc rmid t k x y) p -> inU t p.
+Proof. exact nesting_desc. Qed.
+Print Assumptions nesting_descendants.
+
+Example real_layer_nonvacuous :
+  (* the direction (1, 2, 3) lies in the level-1 tile (1, 0) of the astronomical system: lon in [0, 90] *)
+  inU (tile_at1 rbase rmid Astro 0 1 0) (mkV 1 2 3).
+Proof. cbv - [Rplus Rmult Rminus Ropp IZR Rlt Rle Rinv sqrt Rdiv]. right. repeat split; Lra.lra. Qed.
+
+Theorem equator_diamond_real : forall p, equatorial p = true -> vy (eval p) = 0%R.
+Proof. exact equatorial_y0. Qed.
+Print Assumptions equator_diamond_real.
